@@ -1187,7 +1187,7 @@ func (f ForkId) forkId(buf *strings.Builder, start int) (bool, error) {
 			} else if _, err := buf.WriteRune('/'); err != nil {
 				return true, err
 			}
-			return f.forkId(buf, start+i+1)
+			return f.forkId(buf, start+i)
 		default:
 			panic("invalid source type")
 		}
